@@ -35,7 +35,7 @@ def run(chk, wd, thorough):
     with open(os.path.join(gdir, "sig_gen.inc"), "w") as f:
         f.write(src)
     gh = int(hashlib.sha256(src.encode()).hexdigest()[:7], 16)
-    nfun = 2 * (18 + len(sigs)) + 8
+    nfun = 2 * (18 + len(sigs)) + 10
     jobs = []
     for abi in ABIS:
         fl = ["-DGEN_SIGS", "-I" + gdir, "-DGENHASH=%d" % gh, "-DVM_MAX_FUNCS=%d" % nfun]
